@@ -7,6 +7,7 @@ package main
 import (
 	"bytes"
 	"fmt"
+	"os"
 	"regexp"
 	"go/ast"
 	"go/constant"
@@ -48,7 +49,13 @@ type autoInv struct {
 	lo  string
 }
 
+type partialHavoc struct {
+	guard string
+	set   map[string]bool
+}
+
 type loopInfo struct {
+	modCallees map[*ssa.Function]bool
 	autoPhis []autoInv
 	head    *ssa.BasicBlock
 	ordinal int
@@ -73,6 +80,7 @@ type Exec struct {
 	callOrd map[string]int
 	callIdxOf map[ssa.Instruction]int // ordinal of call per callee name in source order
 	preLoops map[*ssa.BasicBlock]*loopInfo
+	partialHavocs []partialHavoc
 	propRe *regexp.Regexp
 	subErrSites []string
 	tiDone map[string]bool
@@ -1147,6 +1155,66 @@ func (ex *Exec) noteUnsupported(what string) {
 	ex.vc.unsupported = append(ex.vc.unsupported, what)
 }
 
+// havocCallee: an abstracted call to a known function changes only what that
+// function (transitively) may write.
+func (ex *Exec) havocCallee(why string, callee *ssa.Function) {
+	if callee == nil || os.Getenv("ZVC_NOMODREF") != "" {
+		ex.havocAll(why)
+		return
+	}
+	m := ex.vc.ctx.modsets()
+	set, all := m.closure(ex.vc.ctx, callee)
+	if all {
+		ex.havocAll(why)
+		return
+	}
+	for n := range set {
+		for _, l := range ex.inLoops[ex.curBlk] {
+			l.writes[n] = true
+		}
+	}
+	for _, l := range ex.inLoops[ex.curBlk] {
+		if l.modCallees == nil {
+			l.modCallees = map[*ssa.Function]bool{}
+		}
+		l.modCallees[callee] = true
+	}
+	ex.cur.heap = ex.cur.heap.havocSome(set)
+	if ex.pass == 2 {
+		ex.vc.abstracted[why+" (mod-set)"]++
+		ex.partialHavocs = append(ex.partialHavocs, partialHavoc{ex.cur.guard, set})
+	}
+}
+
+// havocTargets: a dynamic dispatch may run any of the targets.
+func (ex *Exec) havocTargets(why string, targets []*ssa.Function) {
+	if len(targets) == 0 || os.Getenv("ZVC_NOMODREF") != "" {
+		ex.havocAll(why)
+		return
+	}
+	m := ex.vc.ctx.modsets()
+	union := map[string]bool{}
+	for _, t := range targets {
+		set, all := m.closure(ex.vc.ctx, t)
+		if all {
+			ex.havocAll(why)
+			return
+		}
+		for n := range set {
+			union[n] = true
+		}
+	}
+	for n := range union {
+		for _, l := range ex.inLoops[ex.curBlk] {
+			l.writes[n] = true
+		}
+	}
+	ex.cur.heap = ex.cur.heap.havocSome(union)
+	if ex.pass == 2 {
+		ex.vc.abstracted[why+" (mod-set of dispatch targets)"]++
+	}
+}
+
 func (ex *Exec) havocAll(why string) {
 	ex.cur.heap = ex.cur.heap.havocAll()
 	for _, l := range ex.inLoops[ex.curBlk] {
@@ -1480,6 +1548,7 @@ func (ex *Exec) run() {
 	ex.out = map[*ssa.BasicBlock]*blockState{}
 	ex.callOrd = map[string]int{}
 	ex.abstractedGuards = nil
+	ex.partialHavocs = nil
 	ex.hasDefer = false
 	ex.rets = nil
 
@@ -1829,7 +1898,7 @@ func (ex *Exec) loopHead(b *ssa.BasicBlock, l *loopInfo, pidx []int, gs []string
 	if ex.pass == 2 {
 		envE := ex.invEnv(b, st.heap, entryPhi)
 		for _, c := range invs {
-			if c.Loop != l.ordinal {
+			if c.Loop != l.ordinal && c.Loop != -2 {
 				continue
 			}
 			t, err := envE.Bool(c.Expr)
@@ -1857,6 +1926,9 @@ func (ex *Exec) loopHead(b *ssa.BasicBlock, l *loopInfo, pidx []int, gs []string
 		}
 		sort.Strings(names)
 		for _, n := range names {
+			if _, known := vc.arrSort[n]; !known {
+				continue // an array no instruction or contract of this function mentions
+			}
 			if ex.frameActive && ex.pass == 2 {
 				sk := vc.fresh("frame.r", "Int")
 				ex.oblig("inv.init", fmt.Sprintf("loop%d.frame", l.ordinal), "", token.NoPos,
@@ -1982,7 +2054,7 @@ func (ex *Exec) loopHead(b *ssa.BasicBlock, l *loopInfo, pidx []int, gs []string
 	}
 	envH := ex.invEnv(b, st.heap, func(p *ssa.Phi) *Val { return ex.vals[p] })
 	for _, c := range invs {
-		if c.Loop != l.ordinal {
+		if c.Loop != l.ordinal && c.Loop != -2 {
 			continue
 		}
 		t, err := envH.Bool(c.Expr)
@@ -1994,7 +2066,7 @@ func (ex *Exec) loopHead(b *ssa.BasicBlock, l *loopInfo, pidx []int, gs []string
 	if ex.pass == 2 && len(invs) > 0 {
 		has := false
 		for _, c := range invs {
-			if c.Loop == l.ordinal {
+			if c.Loop == l.ordinal || c.Loop == -2 {
 				has = true
 			}
 		}
@@ -2031,6 +2103,9 @@ func (ex *Exec) backEdge(p, head *ssa.BasicBlock, l *loopInfo, k int) {
 		}
 		sort.Strings(names)
 		for _, n := range names {
+			if _, known := vc.arrSort[n]; !known {
+				continue
+			}
 			sk := vc.fresh("frame.r", "Int")
 			ex.oblig("inv.pres", fmt.Sprintf("loop%d.frame", l.ordinal), "", token.NoPos,
 				fmt.Sprintf("(=> (and %s %s) (= (select %s %s) (select %s %s)))", eg, ex.frameCond(n, sk), ex.out[p].heap.get(n), sk, ex.entry.get(n), sk), []string{ex.prop})
@@ -2038,7 +2113,7 @@ func (ex *Exec) backEdge(p, head *ssa.BasicBlock, l *loopInfo, k int) {
 	}
 	env := ex.invEnv(head, ex.out[p].heap, func(phi *ssa.Phi) *Val { return ex.val(phi.Edges[pi]) })
 	for _, c := range vc.fc.clauses("invariant") {
-		if c.Loop != l.ordinal {
+		if c.Loop != l.ordinal && c.Loop != -2 {
 			continue
 		}
 		if !(hasProp(c, ex.prop) || len(c.Props) == 0) {
